@@ -1004,6 +1004,14 @@ func (e *eventAllower) commonChecks(event PDU) error {
 		)
 	}
 
+	// The rule for m.room.third_party_invite ends here: the event is allowed if
+	// and only if the sender has the level needed to invite. Its state key is a
+	// token, and the rule about state keys that look like user IDs, further down
+	// the list, is not reached for it.
+	if event.Type() == spec.MRoomThirdPartyInvite {
+		return nil
+	}
+
 	// Check that all state_keys that begin with '@' are only updated by users
 	// with that ID.
 	if stateKey != nil && len(*stateKey) > 0 && (*stateKey)[0] == '@' {
